@@ -4,6 +4,7 @@ package snaps
 
 import (
 	"sort"
+	"strconv"
 	"strings"
 )
 
@@ -11,12 +12,12 @@ import (
 // code. A CR at the end of a line is the documented limitation and is not in
 // any multi-entry alphabet.
 var (
-	vfSigmaCore = []string{"a", "b", "", " ", "---", "/-/-/-/", "----", "[TestA - 1]", "[TestA - 2]", "\xff", "$1", "%d"}
+	vfSigmaCore = []string{"a", "b", "", " ", "---", "/-/-/-/", "----", "[TestA - 1]", "[TestA - 2]", "[TestQ - 7]", "\xff", "$1", "%d"}
 	vfSigmaFull = []string{"a", "b", "", " ", "\t", "---", "/-/-/-/", "----", "--- ", " ---",
-		"[TestA - 1]", "[TestA - 2]", "[TestA - 10]", "[TestB - 1]", "[Test", "]",
+		"[TestA - 1]", "[TestA - 2]", "[TestA - 10]", "[TestB - 1]", "[TestQ - 7]", "[Test", "]",
 		"\xff", "\xfe", "a\xffb", "é", "a\rb", "- x", "+ x", "  x", "@@ -1 +1 @@",
 		"$1", "${a}", "$$", "%d", "%s", "%", "\\1", "\\"}
-	vfSigmaSmall = []string{"a", "", "---", "/-/-/-/", "[TestA - 2]", "$1"}
+	vfSigmaSmall = []string{"a", "", "---", "/-/-/-/", "[TestA - 2]", "[TestQ - 7]", "$1"}
 )
 
 // vfBodies enumerates every body of 0..maxLines lines over sigma, each
@@ -89,4 +90,58 @@ func vfSpecial(s string) bool {
 		}
 	}
 	return false
+}
+
+// vfLongTexts: pairs of long texts (DESIGN §6 C13 (c)): bases of 12 and 210
+// lines, distinct lines and a variant in which one line is "popular" (repeated
+// often enough for difflib's popular-line purge, which needs >= 200 lines),
+// x single edits {delete, insert, replace} at several positions, including a
+// replacement of a unique line by the popular line and vice versa.
+func vfLongTexts(thorough bool) [][2]string {
+	var out [][2]string
+	for _, n := range []int{12, 210} {
+		for _, popular := range []bool{false, true} {
+			var base []string
+			for i := 0; i < n; i++ {
+				if popular && i%3 == 1 {
+					base = append(base, "},")
+				} else {
+					base = append(base, "line "+strconv.Itoa(i))
+				}
+			}
+			pos := []int{0, 1, n / 2, n/2 + 1, n - 2, n - 1}
+			if thorough {
+				pos = nil
+				for i := 0; i < n; i += 1 + n/40 {
+					pos = append(pos, i)
+				}
+				pos = append(pos, n-1)
+			}
+			join := func(l []string) string { return strings.Join(l, "\n") }
+			for _, p := range pos {
+				del := append(append([]string{}, base[:p]...), base[p+1:]...)
+				ins := append(append(append([]string{}, base[:p]...), "inserted"), base[p:]...)
+				rep := append([]string{}, base...)
+				rep[p] = "replaced"
+				repPop := append([]string{}, base...)
+				repPop[p] = "},"
+				if base[p] == "}," {
+					repPop[p] = "unique " + strconv.Itoa(p)
+				}
+				for _, v := range [][]string{del, ins, rep, repPop} {
+					if join(v) != join(base) {
+						out = append(out, [2]string{join(base), join(v)}, [2]string{join(v), join(base)})
+					}
+				}
+				if p+8 < n {
+					// two edits more than 2*context lines apart: two hunks
+					two := append([]string{}, base...)
+					two[p] = "first edit"
+					two[p+8] = "second edit"
+					out = append(out, [2]string{join(base), join(two)})
+				}
+			}
+		}
+	}
+	return out
 }
